@@ -405,7 +405,7 @@ struct Sys {
       const auto* handle = w.oss->Src()(picts[static_cast<size_t>(i)]);
       if (handle != nullptr && handle->src == nullptr && !std::empty(*handle) && w.SourceOf(picts[static_cast<size_t>(i)]) != nullptr) ops.push_back({ K_OPEN, i, 0, 0 });
     }
-    if (on(K_SAVELOAD) && n > 0) { ops.push_back({ K_SAVELOAD, 0, 0, 0 }); if (n > 1 && saveOrders > 1) ops.push_back({ K_SAVELOAD, 1, 0, 0 }); }
+    if (on(K_SAVELOAD) && n > 0) { ops.push_back({ K_SAVELOAD, 0, 0, 0 }); if (n > 1 && saveOrders > 1) ops.push_back({ K_SAVELOAD, 1, 0, 0 }); if (n > 2 && saveOrders > 1) ops.push_back({ K_SAVELOAD, 2, 0, 0 }); }
     return ops;
   }
 
@@ -423,7 +423,7 @@ struct Sys {
     case K_ANNOUNCE: return "Announce(" + p(op.a) + ")";
     case K_CLOSE: return "Close(" + p(op.a) + ")";
     case K_OPEN: return "Open(" + p(op.a) + ")";
-    case K_SAVELOAD: return op.a == 0 ? "SaveLoad(items as stored)" : "SaveLoad(items reversed)";
+    case K_SAVELOAD: return op.a == 0 ? "SaveLoad(items as stored)" : op.a == 1 ? "SaveLoad(items reversed)" : "SaveLoad(connections interleaved by child)";
     default: return "?";
     }
   }
@@ -595,6 +595,13 @@ struct Sys {
       JSON doc;
       ccl::oss::to_json(doc, oss);
       if (op.a == 1) { JSON rev = JSON::array(); for (auto it = doc["items"].rbegin(); it != doc["items"].rend(); ++it) rev.push_back(*it); doc["items"] = rev; }
+      if (op.a == 2) {   // connections interleaved by child, children taken in descending id order; the order of one child's two parents (operand order) is kept
+        std::map<uint32_t, std::vector<JSON>, std::greater<uint32_t>> byChild;
+        for (auto& e : doc["connections"]) byChild[e.at(0).get<uint32_t>()].push_back(e);
+        JSON mixed = JSON::array();
+        for (size_t round = 0; round < 2; ++round) for (auto& [child, es] : byChild) if (round < es.size()) mixed.push_back(es[round]);
+        doc["connections"] = mixed;
+      }
       const auto nBefore = oss.size();
       // the old document goes away (its sources are closed by it), a new one is read from the saved text
       w.ossLive = false;
@@ -754,7 +761,7 @@ int main(int argc, char** argv) {
                  ((sys.kinds & bit(K_EXEC_ALL)) ? "ExecuteAll; " : "") + ((sys.kinds & bit(K_EDIT)) ? "Edit(p, {" + std::string((sys.editKinds & 1) ? "add base set " : "") + ((sys.editKinds & 2) ? "| add term " : "") + ((sys.editKinds & 4) ? "| erase first own constituent " : "") + ((sys.editKinds & 8) ? "| change a term text only" : "") + "}) x {" +
                    ((sys.editFlags & 1) ? "pending " : "") + ((sys.editFlags & 2) ? "announced" : "") + "} on every attached source" + (sys.editBasesOnly ? " of a base pictogram; " : " incl. operation results (= user additions); ") : std::string()) +
                  ((sys.kinds & bit(K_ANNOUNCE)) ? "Announce(p)=SaveState; " : "") + ((sys.kinds & bit(K_CLOSE)) ? "Close(p); " : "") + ((sys.kinds & bit(K_OPEN)) ? "Open(p); " : "") +
-                 ((sys.kinds & bit(K_SAVELOAD)) ? (sys.saveOrders > 1 ? "save->load of the whole document via JSON (items as stored | reversed); " : "save->load of the whole document via JSON; ") : "") +
+                 ((sys.kinds & bit(K_SAVELOAD)) ? (sys.saveOrders > 1 ? "save->load of the whole document via JSON (items as stored | reversed | connections interleaved by child); " : "save->load of the whole document via JSON; ") : "") +
                  "limits: <= " + std::to_string(sys.maxPicts) + " pictograms, <= seed+" + std::to_string(sys.maxExtra) + " insertions, <= " + std::to_string(sys.maxSources) + " documents";
   res.rule = "state = exact canonical dump of OSSchema (all five pictogram-keyed tables, graph facet in index order, handles, options, translations, flags, uid generator) + every document of the environment "
              "(flags + exact RSForm dump) + outstanding freshness obligations; de-duplicated on its 128-bit hash; invariants evaluated in every state, transition checks on every transition; "
